@@ -436,33 +436,33 @@ Definition disjoint (a b : list nat) : Prop := forall x, In x a -> In x b -> Fal
 
 (* ------------------------------------------------------------------ scenarios run by the correspondence *)
 (* two objects a (value va) and b (value vb) of the same type; op; then an in-place write of u to leaf p of
-   `who` (false: the source/original, true: the copy/destination); result: packed values of (first, second) *)
+   `who` (false: the source/original, true: the copy/destination); result: the values read from (first, second) *)
 Inductive sc_op := ScClone | ScImatmul | ScIlshiftNoFlip | ScIlshiftFlip | ScIlshiftPokeFlip.
-Definition run_scenario (T : shape) (op : sc_op) (va vb : value) (who : bool) (p : path) (u : Z) : Z * Z :=
+Definition run_scenario (op : sc_op) (va vb : value) (who : bool) (p : path) (u : Z) : value * value :=
   let '(a, st1) := alloc va empty_store in
   match op with
   | ScClone =>
       let '(c, st2) := clone a st1 in
       let st3 := poke (if who then c else a) p u st2 in
-      (pack T (read st3 a), pack T (read st3 c))
+      (read st3 a, read st3 c)
   | ScImatmul =>
       let '(b, st2) := alloc vb st1 in
       let st3 := imatmul a b st2 in
       let st4 := poke (if who then a else b) p u st3 in
-      (pack T (read st4 b), pack T (read st4 a))
+      (read st4 b, read st4 a)
   | ScIlshiftNoFlip =>
       let '(b, st2) := alloc vb st1 in
       let st3 := ilshift a b st2 in
-      (pack T (read st3 b), pack T (read st3 a))
+      (read st3 b, read st3 a)
   | ScIlshiftFlip =>
       let '(b, st2) := alloc vb st1 in
       let st3 := flip a (ilshift a b st2) in
       let st4 := poke (if who then a else b) p u st3 in
-      (pack T (read st4 b), pack T (read st4 a))
+      (read st4 b, read st4 a)
   | ScIlshiftPokeFlip =>
       (* the source is modified between <<= and _flip: the destination still receives the value at <<= *)
       let '(b, st2) := alloc vb st1 in
       let st3 := poke b p u (ilshift a b st2) in
       let st4 := flip a st3 in
-      (pack T (read st4 b), pack T (read st4 a))
+      (read st4 b, read st4 a)
   end.
